@@ -280,6 +280,23 @@ def one_pass(ctx: CaseCtx, vtf, inputs: Dict[Tuple[int, Any, int], bytes], phase
     except Exception as exc:
         ctx.bad('save-not-repeatable', f'the second save of the same VTF raised {type(exc).__name__}: {exc}', phase=phase)
 
+    # the documented defaults spelled out give the same bytes as leaving the arguments away (version=None: the object's own,
+    # sheet_seq_version=1, asw_or_later=True)
+    try:
+        full_kw = dict({'version': None, 'sheet_seq_version': 1, 'asw_or_later': True}, **save_kw)
+        buf3 = io.BytesIO()
+        vtf.save(buf3, **full_kw)
+        buf4 = io.BytesIO()
+        vtf.save(buf4, full_kw['version'], full_kw['sheet_seq_version'], full_kw['asw_or_later'])   # and positionally, in the documented order
+        buf5 = io.BytesIO()
+        # ... and the other way round: an argument that was given with its default value is left away
+        vtf.save(buf5, **{k: v for k, v in save_kw.items() if full_kw[k] != {'version': None, 'sheet_seq_version': 1, 'asw_or_later': True}[k]})
+        if buf3.getvalue() != data or buf4.getvalue() != data or buf5.getvalue() != data:
+            ctx.bad('default-arguments-differ', 'save() with the documented default values spelled out (by keyword / by position) differs from save() without them', phase=phase)
+        run.count('default_argument_saves')
+    except Exception as exc:
+        ctx.bad('default-arguments-differ', f'save() with the documented defaults spelled out raised {type(exc).__name__}: {exc}', phase=phase)
+
     # --- the file must contain exactly the image data its own header declares (decoded without the library)
     is_cube = bool(vtf.flags.value & G.ENVMAP)
     obj_faces = (7 if vtf.version[1] < 5 else 6) if is_cube else vtf.depth
@@ -871,7 +888,7 @@ def main(run, shard=(0, 1)) -> None:
     probe.report(run)
     probe.check_reached(run)
     run.extra['formats'] = list(G.WRITABLE)
-    run.require('lazy_shuffled_loads', 'lazy_frames_after_refused_or_self_copy', 'large_textures', 'saves', 'reads', 'real_file_passes', 'repeated_saves', 'legacy_version_with_resources', 'resaves', 'frames_compared', 'thumbnails_compared', 'generated_mipmaps_checked', 'nearest_filter_regenerations',
+    run.require('lazy_shuffled_loads', 'lazy_frames_after_refused_or_self_copy', 'large_textures', 'default_argument_saves', 'saves', 'reads', 'real_file_passes', 'repeated_saves', 'legacy_version_with_resources', 'resaves', 'frames_compared', 'thumbnails_compared', 'generated_mipmaps_checked', 'nearest_filter_regenerations',
                 'index_probes', 'resource_sets_compared', 'sheets_compared', 'one_wide_textures', 'cubemaps_with_sphere',
                 'cubemaps_without_sphere', 'volumetric_textures', 'reduced_precision_main_format', 'handmade_files_read',
                 'sweep_images')
